@@ -317,7 +317,8 @@ func (df *DataFile) readToBuf(blockID uint32, offset uint32, buf *bytebufferpool
 		}
 
 		// 对当前 chunk 解码
-		data, chunkType, err := DecodeChunk(block[offset:])
+		// 仅解码实际读取到的字节, 缓冲区其余部分为之前读取的残留数据
+		data, chunkType, err := DecodeChunk(block[offset:size])
 		if err != nil {
 			return err
 		}
@@ -409,7 +410,8 @@ func (reader *DataReader) next() ([]byte, *DataPos, error) {
 		}
 
 		// 对当前 chunk 解码
-		data, chunkType, err := DecodeChunk(reader.blockBuf[reader.offset:])
+		// 仅解码实际读取到的字节, 缓冲区其余部分为之前读取的残留数据
+		data, chunkType, err := DecodeChunk(reader.blockBuf[reader.offset:size])
 		if err != nil {
 			return nil, nil, err
 		}
